@@ -134,6 +134,10 @@ type World struct {
 	PropOverride    string
 	armedC15        bool
 	wallAdvanced    int64
+	// pending: transactions admitted by CheckTx that no proposer has included yet (the node's
+	// mempool). CometBFT re-checks every one of them after each Commit (CheckTx type Recheck) and
+	// evicts those that no longer pass; whatever stays is, by definition, still admitted.
+	pending []*TxCtx
 }
 
 func (w *World) Ev(format string, a ...interface{}) {
@@ -439,6 +443,7 @@ func (w *World) execBlock(b *BlockSpec) bool {
 		m.AfterBlock(w)
 	}
 	w.runQueries(b, -1)
+	w.recheckPending()
 	w.runNoise(b, -3, height)
 	if b.Export {
 		w.takeFork()
@@ -572,6 +577,38 @@ func (w *World) doCheck(tx *TxCtx) {
 	for _, m := range w.Mons {
 		m.AfterCheck(w, tx)
 	}
+	if ts.CheckOnly && resp.Code == 0 && len(w.pending) < 6 {
+		w.Fault("tx.held_in_mempool")
+		p := *tx
+		p.Bytes = bz
+		p.Stash = map[string]interface{}{}
+		w.pending = append(w.pending, &p)
+	}
+}
+
+// recheckPending is what CometBFT's mempool does after every Commit.
+func (w *World) recheckPending() {
+	if len(w.pending) == 0 {
+		return
+	}
+	var keep []*TxCtx
+	for _, tx := range w.pending {
+		cctx := w.Ref.App.BaseApp.NewContext(true, w.Hdr)
+		tx.Stash["check.spendable"] = w.Ref.App.BankKeeper.SpendableCoins(cctx, tx.Payer)
+		tx.Stash["check.locked"] = w.Ref.App.EnterpriseKeeper.GetLockedUndAmountForAccount(cctx, tx.Payer)
+		tx.Stash["recheck"] = true
+		resp := w.Ref.App.CheckTx(abci.RequestCheckTx{Tx: tx.Bytes, Type: abci.CheckTxType_Recheck})
+		tx.Check = &resp
+		w.Fault("abci.recheck_pending")
+		w.Ev("RECHECK %d/%d code=%d/%s", tx.Block, tx.Idx, resp.Code, resp.Codespace)
+		for _, m := range w.Mons {
+			m.AfterCheck(w, tx)
+		}
+		if resp.Code == 0 {
+			keep = append(keep, tx)
+		}
+	}
+	w.pending = keep
 }
 
 // ---------------------------------------------------------------------------------------------
